@@ -607,7 +607,10 @@ def _rebuild_interpreted(ctx, rid, repo):
                 raise Undecided("required_parset does not return a dict")
             needs = {k: v for k, v in req.items() if v is None}
             n = int(to_poly(req["n_parameters"]).const_value())
-            user0 = {"p": {k: ([[at(f"U_{k}_lo"), at(f"U_{k}_hi")]] * n if k == "bounds" else [at(f"U_{k}{j}") for j in range(n)]) for k in needs}}
+            # the measurement overrides every constraint setting this modifier type HAS (auxdata, sigmas, factors, inits), not only the
+            # ones it requires: an override the rebuilt workspace does not carry silently falls back to the modifier's default
+            over = [k for k in req if k in needs or k in ("inits", "auxdata", "sigmas", "factors")]
+            user0 = {"p": {k: ([[at(f"U_{k}_lo"), at(f"U_{k}_hi")]] * n if k == "bounds" else [at(f"U_{k}{j}") for j in range(n)]) for k in over}}
 
             def merge(user):
                 return Interp({"paramsets_requirements": {"p": [dict(req)]}, "paramsets_user_configs": user, "exceptions": Obj("exceptions")}, {}, region).run(A.strip_docstring(red.node.body))["p"]
